@@ -60,6 +60,9 @@ class Pair(System):
     def _alph(self, cfg, state, i):
         if state["term"][i]:
             return []
+        script = cfg.get("script", ((), ()))[i]
+        if state["n"][i] < len(script):  # the base task's own prefix (set-up calls / root split) comes first
+            return [[i, script[state["n"][i]]]]
         if state["s"][i] is None:
             return [[i, e] for e in state["alph_b0"]]
         return [[i, e] for e in self.base.alphabet(cfg["ab"[i]], state["s"][i], state["n"][i])]
@@ -139,7 +142,8 @@ def _cid(cfg):
 
 def choose(mod, tasks, want):
     """per system of the module's own dfs tasks: up to ``want`` base tasks with different configurations, evenly spaced
-    through the module's (sorted) configuration list; per configuration the task with the deepest subtree"""
+    through the module's (sorted) configuration list; per configuration the task with the shortest prefix (the root split
+    of the module, which also carries whatever set-up calls its histories must start with), then the deepest subtree"""
     excl = set(EXCLUDE.get(getattr(mod, "PROPERTY", ""), ())) | set(getattr(mod, "PAIR_EXCLUDE", ()))
     by_sys = {}
     for t in tasks:
@@ -150,7 +154,8 @@ def choose(mod, tasks, want):
             continue
         cfgs = by_sys.setdefault(name, {})
         cid = _cid(t["cfg"])
-        if cid not in cfgs or t["depth"] > cfgs[cid]["depth"]:
+        rank = (len(t.get("prefix", ())), -t["depth"])
+        if cid not in cfgs or rank < (len(cfgs[cid].get("prefix", ())), -cfgs[cid]["depth"]):
             cfgs[cid] = t
     for name in sorted(by_sys):
         cids = sorted(by_sys[name])
@@ -159,8 +164,16 @@ def choose(mod, tasks, want):
         yield name, [by_sys[name][c] for c in cids]
 
 
+# C15's systems rebuild every state by re-executing the recorded calls (a deepcopy would cut the aliasing under test), so a
+# derived task costs (nodes x depth) executions; its two-object families (two detectors fed from ONE caller container) are
+# native to checks/c15.py.  C14 runs ensembles and fault twins whose own family list already pairs objects.
+NOT_FOR = ("C15",)
+
+
 def derive(mod, tasks, tier):
     if os.environ.get("VERIF_PAIRS", DEFAULT_ON) == "0" or getattr(mod, "NO_PAIRS", False):
+        return []
+    if getattr(mod, "PROPERTY", "") in NOT_FOR:
         return []
     out = []
     for name, chosen in choose(mod, tasks, CFGS_PER_SYSTEM[tier]):
@@ -196,8 +209,10 @@ def derive(mod, tasks, tier):
                 # something handed from one instance to the other is not hidden by being identical anyway
                 cfg_b["id"] = "%s~b" % (cfg_b["id"],)
             for sched, depth in (("alt", d_alt), ("free", d_free), ("seq", d_alt), ("blocks", d_alt)):
+                pa, pb = list(ta.get("prefix", ())), list(tb.get("prefix", ()))
+                depth += len(pa) + len(pb)
                 cfg = {"id": "pair:%s+%s:%s" % (ida, idb, sched), "a": ta["cfg"], "b": cfg_b, "sched": sched,
-                       "h": depth // 2, "hb": max(1, depth // 2 - 1)}
+                       "h": depth // 2, "hb": max(1, depth // 2 - 1), "script": [pa, pb]}
                 out.append({
                     "system": PREFIX + name, "cfg": cfg, "prefix": [], "depth": depth,
                     "label": "%s%s|%s+%s|%s|d%d" % (PREFIX, name, ida, idb, sched, depth),
